@@ -1031,6 +1031,27 @@ func (cx *SpecCtx) evalCall(x *ECall) sval {
 		}
 		g.sc.declare("strofbytes", "(declare-fun strofbytes ((Array Int Int) Int Int) Str)")
 		return sval{t: fmt.Sprintf("(strofbytes (select %s (s-arr %s)) (s-off %s) (s-len %s))", g.get(cx.st, g.sc.elemComp(sl.Elem())), b.t, b.t, b.t), typ: types.Typ[types.String], kind: "val"}
+	case "freshin": // freshin(L, x): the object (array) x refers to was allocated during the current iteration of loop L
+		lit, ok := x.Args[0].(*EInt)
+		if !ok {
+			cx.fail("freshin(L, x): L must be a loop ordinal literal")
+		}
+		v := arg(1)
+		ref := v.t
+		if v.typ != nil {
+			if _, isSl := v.typ.Underlying().(*types.Slice); isSl {
+				ref = fmt.Sprintf("(s-arr %s)", v.t)
+			}
+		}
+		for _, l := range g.loops {
+			if l.ordinal == int(lit.Val.Int64()) {
+				if l.iterAlloc == "" {
+					cx.fail("freshin(%d, ..) used before loop %d is entered", l.ordinal, l.ordinal)
+				}
+				return sval{t: fmt.Sprintf("(>= (rootref %s) %s)", ref, l.iterAlloc), kind: "bool"}
+			}
+		}
+		cx.fail("freshin: no loop %d", lit.Val.Int64())
 	case "setadd", "setdel":
 		sv, e := arg(0), arg(1)
 		if sv.kind != "intset" {
